@@ -23,4 +23,5 @@ package worker
 // together with "busy", so that a probe result computed before the start is
 // discarded instead of declaring the live container exited.
 //@ func worker.startContainer$1 property C14
+//@   requires wkr.running != nil && wkr.starting != nil && wkr.running != wkr.starting
 //@   ensures wkr.updated == wkr.busy && has(wkr.running, ctr.UUID) && !has(wkr.starting, ctr.UUID) && wkr.lastUUID == ctr.UUID
